@@ -47,8 +47,8 @@ func mergeBuilderInto(fromBuilder ast.Builder, intoBuilder ast.Builder, underPat
 			continue
 		}
 
-		newAssignment := assignment
-		newAssignment.Path = underPath.Append(assignment.Path)
+		newAssignment := assignment.DeepCopy()
+		newAssignment.Path = underPath.Append(newAssignment.Path)
 		newBuilder.Constructor.Assignments = append(newBuilder.Constructor.Assignments, newAssignment)
 	}
 
@@ -58,7 +58,10 @@ func mergeBuilderInto(fromBuilder ast.Builder, intoBuilder ast.Builder, underPat
 			continue
 		}
 
-		newOpt := opt
+		// the merged builder gets its own copy of the option: sharing arguments
+		// and assignments with the source builder would let a rule applied to
+		// one of them rewrite the other.
+		newOpt := opt.DeepCopy()
 		newOpt.Assignments = nil
 
 		if as, found := renameOptions[newOpt.Name]; found {
@@ -66,8 +69,8 @@ func mergeBuilderInto(fromBuilder ast.Builder, intoBuilder ast.Builder, underPat
 		}
 
 		for _, assignment := range opt.Assignments {
-			newAssignment := assignment
-			newAssignment.Path = underPath.Append(assignment.Path)
+			newAssignment := assignment.DeepCopy()
+			newAssignment.Path = underPath.Append(newAssignment.Path)
 
 			newOpt.Assignments = append(newOpt.Assignments, newAssignment)
 		}
